@@ -8,7 +8,7 @@ ASSUME = [
 ]
 
 
-def build_server(run, tag, spec_path, extra_flags=()):
+def build_server(run, tag, spec_path, extra_flags=(), client=False):
     """Real `swagger generate server` into a scratch module + the generic reflection driver."""
     swagger = run.build_swagger()
     mod = run.scratch_module("srv-" + tag, modname="scratch/gen")
@@ -18,6 +18,15 @@ def build_server(run, tag, spec_path, extra_flags=()):
         return None, "generate: " + g.stderr[-2000:]
     os.makedirs(os.path.join(mod, "drv"), exist_ok=True)
     shutil.copy(os.path.join(HARNESS, "drivers", "serverdrv", "main.go.txt"), os.path.join(mod, "drv", "main.go"))
+    if client:
+        g = run.sh([swagger, "generate", "client", "-f", spec_path, "-t", mod, "--name", "verif"], cwd=mod, check=False, timeout=1800)
+        if g.returncode != 0:
+            return None, "generate client: " + g.stderr[-2000:]
+        shutil.copy(os.path.join(HARNESS, "drivers", "serverdrv", "client.go.txt"), os.path.join(mod, "drv", "client.go"))
+        run.sh([run.build_vh(), "resp-registry", "-pkg", os.path.join(mod, "restapi", "operations"),
+                "-import", "scratch/gen/restapi/operations", "-out", os.path.join(mod, "drv", "respregistry.go")])
+    else:
+        shutil.copy(os.path.join(HARNESS, "drivers", "serverdrv", "noclient.go.txt"), os.path.join(mod, "drv", "noclient.go"))
     out = run.path("bin", "serverdrv-" + tag)
     b = run.sh(["go", "build", "-o", out, "./drv"], cwd=mod, check=False, timeout=1800)
     if b.returncode != 0:
@@ -250,5 +259,90 @@ def check_c03(run):
     return finish(run, "model_checking", cov, ASSUME + ["bounded universe of parameter descriptors and token sequences; lexeme tables of SimpleParam (strconv/strfmt facts)"])
 
 
+def check_c04(run):
+    vh = run.build_vh()
+    gen = run.tlc("GenC04", "GenC04", workers=4, timeout=900)
+    if not gen["ok"]:
+        raise Infra("GenC04 failed (includes the design theorem Lossless): " + gen["out"][-2000:])
+    cases = [e for t, e in gen["emitted"] if t == "CASE"]
+    params = sorted((c for c in cases if c["k"] == "param"), key=lambda c: json.dumps(c["p"], sort_keys=True))
+    resps = sorted((c for c in cases if c["k"] == "resp"), key=lambda c: c["L"])
+    nsh = 4
+    shards = [params[i::nsh] for i in range(nsh)]
+
+    def one(k):
+        cs = shards[k]
+        rows = [dict(p=c["p"]) for c in cs]
+        if k == 0:
+            rows += [dict(resp=c["L"], responses=c["responses"]) for c in resps]
+        cp = run.path("c04-%d.ndjson" % k); write_ndjson(cp, rows)
+        sp = run.path("c04-%d.json" % k)
+        run.sh([vh, "param-materialise", "-cases", cp, "-out", sp])
+        drv, err = build_server(run, "c%d" % k, sp, client=True)
+        if not drv:
+            return [dict(ev="Server", ok=False, err=err[:1500], shard=k)], 0
+        calls, meta = [], []
+        for i, c in enumerate(cs):
+            for v in c["vals"]:
+                calls.append(dict(id=len(calls), op="op%d" % i, set={"p": v})); meta.append(("param", c["p"], v))
+            if not c["p"]["required"]:
+                calls.append(dict(id=len(calls), op="op%d" % i, set={})); meta.append(("param", c["p"], None))
+        if k == 0:
+            for c in resps:
+                for code in c["codes"]:
+                    sc = c["scripts"][str(code)] if isinstance(c["scripts"], dict) else None
+                    script = dict(code=code, typed=True)
+                    if sc["payload"] != ["null"]:
+                        script["payload"] = sc["payload"]
+                    hd = sc["headers"] if isinstance(sc["headers"], dict) else {}
+                    names = {"xint": "X-Int", "xcsv": "X-Csv", "xdate": "X-Date"}
+                    if hd:
+                        script["headers"] = {names[h]: v for h, v in hd.items()}
+                    calls.append(dict(id=len(calls), op=c["L"], set={}, script=script)); meta.append(("resp", c["L"], code))
+        cpath = run.path("calls-%d.ndjson" % k); write_ndjson(cpath, calls)
+        out = run.sh([drv, "client", cpath], timeout=1800)
+        evs = [json.loads(l) for l in out.stdout.splitlines() if l.strip()][1:]
+        res = [dict(ev="Server", ok=True, err="", shard=k)]
+        for r, m in zip(evs, meta):
+            base = dict(clientPanic=r.get("clientPanic", False), noMethod=r.get("noMethod", False), reached=r.get("reached", False),
+                        received=r.get("received", ["obj", {}]), errText=r.get("errText", "") + r.get("panicText", "") + r.get("setErr", ""))
+            if m[0] == "param":
+                res.append(dict(ev="ParamCall", p=m[1], hasValue=m[2] is not None, sent=m[2] if m[2] is not None else ["null"],
+                                kind=r.get("kind", "none"), **base))
+            else:
+                result = r.get("result", dict(type="none", code=-1, generic=False, hasPayload=False, headers={}))
+                if "payload" not in result:
+                    result["payload"] = ["null"]
+                res.append(dict(ev="RespCall", L=m[1], code=m[2], kind=r.get("kind", "none"), result=result,
+                                usedTyped=r.get("usedTyped", False), **base))
+        return res, len(calls)
+
+    with concurrent.futures.ThreadPoolExecutor(max_workers=nsh) as ex:
+        results = list(ex.map(one, range(nsh)))
+    events = [e for evs, _ in results for e in evs]
+    rejects = validate_trace(run, "TraceC04", "TraceC04", events)
+    for e in rejects:
+        ev = events[e["line"] - 1]
+        if ev["ev"] == "ParamCall":
+            p = ev["p"]
+            kind = p["type"] + ("/" + p["format"] if "format" in p else "")
+            if p["type"] == "array":
+                it = p["items"]
+                kind = "array[%s]" % ("array" if it["type"] == "array" else it["type"]) + ":" + p.get("cf", "none")
+            flags = "".join(k for k in ("required", "allowEmpty") if p.get(k)) + ("+default" if "default" in p else "")
+            sig = "%s | %s %s %s sent=%s" % (e["why"], p["in"], kind, flags, json.dumps(ev["sent"]) if ev["hasValue"] else "nothing")
+        else:
+            sig = "%s | layout %s code %d" % (e["why"], ev["L"], ev["code"])
+        run.violations.append(dict(signature=sig, detail=ev))
+    ncall = sum(n for _, n in results)
+    cov = dict(states=gen["states"], transitions=gen["transitions"], traces_validated_against_impl=ncall, evaluations=ncall,
+               distinct_nontrivial=len({json.dumps(e, sort_keys=True) for e in events if e["ev"] != "Server"}),
+               rule="every parameter descriptor of ParamCases x every value Bind can produce (+ nothing for optional ones); 4 response layouts x declared, default-range and undeclared status codes with typed generated responders",
+               samples=[e for e in events if e["ev"] == "RespCall"][:1] + [dict(p=e["p"], sent=e["sent"]) for e in events if e["ev"] == "ParamCall"][:1],
+               design_theorem="Lossless (Bind(p, Wire(p, v)).val = v for every sendable value) checked by TLC on the whole universe",
+               operations=len(params) + len(resps), rejected_events=len(rejects), exhaustive=True)
+    return finish(run, "model_checking", cov, ASSUME + ["client and server run in one process over loopback HTTP (net/http/httptest)"])
+
+
 def check(run, replay=None):
-    return {"C06": check_c06, "C03": check_c03}[run.pid](run)
+    return {"C06": check_c06, "C03": check_c03, "C04": check_c04}[run.pid](run)
